@@ -182,3 +182,179 @@ Section CB.
     reflexivity.
   Qed.
 End CB.
+
+(* ====================================================================== general offsets (equal_dofnum or not), interpolation as a
+   sum over the components, shared DOFs, and the permutation to the ElementComposite numbering *)
+Section CBgen.
+  Variable R : Type.
+  Variables (rO rI : R) (radd rmul rsub : R -> R -> R) (ropp : R -> R).
+  Variable Rth : ring_theory rO rI radd rmul rsub ropp (@eq R).
+  Add Ring RingC19CBg : Rth.
+  Notation Sn := (sumn rO radd).
+  Variables V VC W : Type.
+  Variables (vadd : V -> V -> V) (vscale : R -> V -> V) (vaddC : VC -> VC -> VC) (vscaleC : R -> VC -> VC).
+  Variable inj : nat -> V -> VC.
+  Variable b0 : basis R V.
+  Variable rest : list (basis R V).
+  Variable eq : bool.
+  Notation bs := (b0 :: rest).
+  Notation M := (length bs).
+  Notation comp n := (nth n bs b0).
+  Notation Nb := (fun n => bNbfun (nth n bs b0)).
+  Notation off := (cb_offset R V b0 bs eq).
+  Hypothesis Hwf : forall n, n < M -> wf_basis (comp n) /\ bnelems (comp n) = bnelems b0 /\ bnq (comp n) = bnq b0.
+
+  Lemma cbg_init : exists C, composite_basis R V VC inj b0 rest eq = Some C /\
+    bN C = cb_N R V b0 bs eq /\ bNbfun C = psum Nb M /\ bnelems C = bnelems b0 /\ bnq C = bnq b0 /\ bdx C = bdx b0 /\
+    bedofs C = cb_edofs R V b0 bs eq /\
+    (forall i e q, bB C i e q = let '(n, j) := nth i (cb_funs R V b0 bs) (0, 0) in inj n (bB (comp n) j e q)).
+  Proof.
+    unfold composite_basis.
+    assert (G : forallb (fun b => (bnq b =? bnq b0) && (bnelems b =? bnelems b0)) bs = true).
+    { apply forallb_forall. intros b Hb. destruct (In_nth bs b b0 Hb) as [n [Hn E]]. subst b.
+      destruct (Hwf n Hn) as [_ [E1 E2]]. now rewrite E1, E2, !Nat.eqb_refl. }
+    rewrite G. eexists. split; [reflexivity|]. cbn [bN bNbfun bnelems bnq bdx bedofs bB].
+    repeat split. unfold cb_Nbfun. apply (fold_map_list_seq (@bNbfun R V) bs b0).
+  Qed.
+
+  Lemma cbg_edofs_row n j : n < M -> j < Nb n ->
+    nth (psum Nb n + j) (cb_edofs R V b0 bs eq) [] = map (Nat.add (off n)) (nth j (bedofs (comp n)) []).
+  Proof.
+    intros Hn Hj. unfold cb_edofs.
+    set (f := fun n0 => map (map (Nat.add (cb_offset R V b0 bs eq n0))) (bedofs (nth n0 bs b0))).
+    assert (Hlen : forall k, k < M -> length (f k) = Nb k).
+    { intros k Hk. unfold f. rewrite map_length. destruct (Hwf k Hk) as [[HL _] _]. exact HL. }
+    assert (E : psum Nb n = sumlen f (firstn n (seq 0 M))).
+    { rewrite firstn_seq by lia. unfold sumlen, psum. apply fold_add_map_ext. intros x Hx. apply in_seq in Hx.
+      symmetry. apply Hlen. lia. }
+    rewrite E. rewrite (nth_flat_map_offset f (seq 0 M) n j [] 0).
+    - rewrite seq_nth by lia. unfold f. cbn [Nat.add].
+      rewrite (nth_indep _ [] (map (Nat.add (off n)) [])) by (rewrite map_length; destruct (Hwf n Hn) as [[HL _] _]; lia).
+      rewrite (map_nth (map (Nat.add (off n)))). reflexivity.
+    - rewrite seq_length. exact Hn.
+    - rewrite seq_nth by lia. cbn [Nat.add]. rewrite Hlen by exact Hn. exact Hj.
+  Qed.
+
+  Lemma cbg_entry (C : basis R VC) n j e : bedofs C = cb_edofs R V b0 bs eq -> n < M -> j < Nb n -> e < bnelems b0 ->
+    nth e (element_dofs C (psum Nb n + j)) 0 = off n + nth e (element_dofs (comp n) j) 0.
+  Proof.
+    intros HE Hn Hj He. unfold C01_Assembly.element_dofs at 1. rewrite HE, cbg_edofs_row by assumption.
+    destruct (Hwf n Hn) as [[_ Hrow] [Hnt _]]. destruct (Hrow j Hj) as [HL _]. unfold C01_Assembly.element_dofs in *.
+    rewrite (nth_indep _ 0 (off n + 0)) by (rewrite map_length, HL; lia).
+    now rewrite (map_nth (Nat.add (off n))).
+  Qed.
+
+  (* interpolation on the CompositeBasis: every component interpolates its own slice x[off_n + .] (the whole x when the DOFs
+     are shared) and is placed in its slot *)
+  Lemma cbg_interp_sum (C : basis R VC) (g : VC -> R) x e q :
+    composite_basis R V VC inj b0 rest eq = Some C -> e < bnelems b0 ->
+    (forall a c, g (vaddC a c) = radd (g a) (g c)) -> (forall s a, g (vscaleC s a) = rmul s (g a)) ->
+    g (interp R rO VC vaddC vscaleC C x e q)
+    = Sn M (fun n => Sn (Nb n) (fun j => rmul (x (off n + nth e (element_dofs (comp n) j) 0)) (g (inj n (bB (comp n) j e q))))).
+  Proof.
+    intros EC He Hga Hgs.
+    destruct cbg_init as [C' [E' [_ [HNb [_ [_ [_ [HE HBf]]]]]]]]. rewrite EC in E'. inversion E'; subst C'; clear E'.
+    rewrite (interp_linear R rO rI radd rmul rsub ropp Rth VC vaddC vscaleC g C x e q Hga Hgs).
+    rewrite HNb, (sumn_blocks R rO rI radd rmul rsub ropp Rth).
+    apply sumn_ext. intros n Hn. apply sumn_ext. intros j Hj.
+    rewrite cbg_entry by assumption. rewrite HBf. now rewrite (cb_funs_nth R V b0 rest n j Hn Hj).
+  Qed.
+
+  Hypothesis inj_add : forall n x y, inj n (vadd x y) = vaddC (inj n x) (inj n y).
+  Hypothesis inj_scale : forall n s x, inj n (vscale s x) = vscaleC s (inj n x).
+
+  Corollary cbg_interp_components (C : basis R VC) (g : VC -> R) x e q :
+    composite_basis R V VC inj b0 rest eq = Some C -> e < bnelems b0 ->
+    (forall a c, g (vaddC a c) = radd (g a) (g c)) -> (forall s a, g (vscaleC s a) = rmul s (g a)) ->
+    g (interp R rO VC vaddC vscaleC C x e q)
+    = Sn M (fun n => g (inj n (interp R rO V vadd vscale (comp n) (fun k => x (off n + k)) e q))).
+  Proof.
+    intros EC He Hga Hgs. rewrite (cbg_interp_sum C g x e q EC He Hga Hgs). apply sumn_ext. intros n Hn.
+    symmetry. apply (interp_linear R rO rI radd rmul rsub ropp Rth V vadd vscale (fun y => g (inj n y)) (comp n) (fun k => x (off n + k)) e q).
+    - intros a c. rewrite inj_add. apply Hga.
+    - intros s a. rewrite inj_scale. apply Hgs.
+  Qed.
+End CBgen.
+
+Section SharedAndPermuted.
+  Variable R : Type.
+  Variables (rO rI : R) (radd rmul rsub : R -> R -> R) (ropp : R -> R).
+  Variable Rth : ring_theory rO rI radd rmul rsub ropp (@eq R).
+  Add Ring RingC19SP : Rth.
+  Notation Sn := (sumn rO radd).
+  Variables V VC W : Type.
+  Variables (vadd : V -> V -> V) (vscale : R -> V -> V) (vaddC : VC -> VC -> VC) (vscaleC : R -> VC -> VC).
+  Variable inj : nat -> V -> VC.
+  Variable b0 : basis R V.
+  Variable rest : list (basis R V).
+  Notation bs := (b0 :: rest).
+  Notation M := (length bs).
+  Notation comp n := (nth n bs b0).
+  Notation Nb := (fun n => bNbfun (nth n bs b0)).
+  Notation NN := (fun n => bN (nth n bs b0)).
+  Hypothesis Hwf : forall n, n < M -> wf_basis (comp n) /\ bnelems (comp n) = bnelems b0 /\ bnq (comp n) = bnq b0.
+  Variable form : VC -> VC -> W -> R.
+  Hypothesis form_add_u : forall x y v w, form (vaddC x y) v w = radd (form x v w) (form y v w).
+  Hypothesis form_scale_u : forall s x v w, form (vscaleC s x) v w = rmul s (form x v w).
+  Hypothesis form_add_v : forall u x y w, form u (vaddC x y) w = radd (form u x w) (form u y w).
+  Hypothesis form_scale_v : forall s u x w, form u (vscaleC s x) w = rmul s (form u x w).
+  Hypothesis inj_add : forall n x y, inj n (vadd x y) = vaddC (inj n x) (inj n y).
+  Hypothesis inj_scale : forall n s x, inj n (vscale s x) = vscaleC s (inj n x).
+
+  Lemma integrate_sumn nt nq K (G : nat -> nat -> nat -> R) dx :
+    integrate R rO radd rmul nt nq (fun e q => Sn K (fun a => G a e q)) dx = Sn K (fun a => integrate R rO radd rmul nt nq (G a) dx).
+  Proof.
+    unfold integrate.
+    transitivity (Sn nt (fun e => Sn K (fun a => Sn nq (fun q => rmul (G a e q) (dx e q))))).
+    { apply sumn_ext. intros e _. rewrite (sumn_exchange R rO rI radd rmul rsub ropp Rth K nq).
+      apply sumn_ext. intros q _. now rewrite (sumn_scale_r R rO rI radd rmul rsub ropp Rth). }
+    apply (sumn_exchange R rO rI radd rmul rsub ropp Rth).
+  Qed.
+
+  (* ---------- shared DOFs (equal_dofnum = True, the @ operator): all components use the same numbers, the matrix is the
+     SUM over all (test a, trial b) of the component-block weak forms (each of which is va^T A^{a,b} ub by C01) ---------- *)
+  Theorem shared_dofs_matrix_is_sum (w : nat -> nat -> W) (u v : nat -> R) :
+    (forall n, n < M -> bN (comp n) = bN b0) ->
+    exists C cC AC,
+      composite_basis R V VC inj b0 rest true = Some C /\ bN C = bN b0 /\
+      bilinear_assemble R rO radd rmul VC W form w C None = Some cC /\ to_dense2 R rO radd cC = Some AC /\
+      vAu R rO radd rmul v AC u (bN C) (bN C)
+      = Sn M (fun a => Sn M (fun b =>
+          integrate R rO radd rmul (bnelems b0) (bnq b0)
+            (fun e q => form (inj b (interp R rO V vadd vscale (comp b) u e q)) (inj a (interp R rO V vadd vscale (comp a) v e q)) (w e q))
+            (bdx b0))).
+  Proof.
+    intros HN.
+    destruct (cbg_init R V VC inj b0 rest true Hwf) as [C [EC [HNc [HNb [Hnt [Hnq [Hdx [HE HBf]]]]]]]].
+    assert (WC : wf_basis C).
+    { split.
+      - rewrite HE, HNb. unfold cb_edofs. rewrite flat_map_length_sumlen. unfold sumlen, psum. apply fold_add_map_ext.
+        intros x Hx. apply in_seq in Hx. rewrite map_length. destruct (Hwf x ltac:(lia)) as [[HL _] _]. exact HL.
+      - intros i Hi. rewrite HNb in Hi. destruct (psum_decompose Nb M i Hi) as [n [j [Hn [Hj ->]]]].
+        destruct (Hwf n Hn) as [[_ Hrow] [Hntn _]]. destruct (Hrow j Hj) as [HL Hlt]. split.
+        + unfold C01_Assembly.element_dofs. rewrite HE, (cbg_edofs_row R V b0 rest true Hwf n j Hn Hj). rewrite map_length.
+          unfold C01_Assembly.element_dofs in HL. now rewrite HL, Hnt.
+        + intros e He. rewrite Hnt in He. rewrite (cbg_entry R V VC b0 rest true Hwf C n j e HE Hn Hj He).
+          rewrite HNc. cbn [cb_offset cb_N Nat.add]. rewrite <- (HN n Hn). apply Hlt. now rewrite Hntn. }
+    destruct (bilinear_weak_form R rO rI radd rmul rsub ropp Rth VC W vaddC vscaleC form
+                form_add_u form_scale_u form_add_v form_scale_v w C None u v WC WC eq_refl eq_refl) as [cC [AC [E1 [E2 H1]]]].
+    exists C, cC, AC. split; [exact EC|]. split; [exact HNc|]. split; [exact E1|]. split; [exact E2|].
+    cbv zeta in H1. rewrite H1, Hnt, Hnq, Hdx.
+    set (F := fun a b e q => form (inj b (interp R rO V vadd vscale (comp b) u e q))
+                                   (inj a (interp R rO V vadd vscale (comp a) v e q)) (w e q)).
+    symmetry.
+    transitivity (Sn M (fun a => integrate R rO radd rmul (bnelems b0) (bnq b0) (fun e q => Sn M (fun b => F a b e q)) (bdx b0))).
+    { apply sumn_ext. intros a _. symmetry. apply (integrate_sumn (bnelems b0) (bnq b0) M (fun b e q => F a b e q)). }
+    rewrite <- (integrate_sumn (bnelems b0) (bnq b0) M (fun a e q => Sn M (fun b => F a b e q)) (bdx b0)).
+    symmetry. unfold F.
+    unfold integrate. apply sumn_ext. intros e He. apply sumn_ext. intros q Hq. f_equal.
+    rewrite (cbg_interp_components R rO rI radd rmul rsub ropp Rth V VC vadd vscale vaddC vscaleC inj b0 rest true Hwf inj_add inj_scale C
+               (fun Y => form (interp R rO VC vaddC vscaleC C u e q) Y (w e q)) v e q EC He)
+      by (intros; first [apply form_add_v | apply form_scale_v]).
+    apply sumn_ext. intros a Ha.
+    rewrite (cbg_interp_components R rO rI radd rmul rsub ropp Rth V VC vadd vscale vaddC vscaleC inj b0 rest true Hwf inj_add inj_scale C
+               (fun X => form X (inj a (interp R rO V vadd vscale (comp a) (fun k => v (cb_offset R V b0 bs true a + k)) e q)) (w e q)) u e q EC He)
+      by (intros; first [apply form_add_u | apply form_scale_u]).
+    reflexivity.
+  Qed.
+End SharedAndPermuted.
